@@ -37,6 +37,14 @@ func init() {
 				add(op, pr, "bool", false)
 			}
 		}
+		// several thousand elements on a fixed pattern (sizes that are not a multiple of small worker counts; the last
+		// element of the logical results is true): chunked / parallel kernels and their remainders
+		for _, op := range []string{"And", "Or"} {
+			p.Jobs = append(p.Jobs, Job{Harness: "opset13.H_C03", Case: map[string]interface{}{"op": op, "a": []int{8197}, "b": []int{8197}, "dtype": "bool", "same": false, "concrete": true}})
+			p.Jobs = append(p.Jobs, Job{Harness: "opset13.H_C03", Case: map[string]interface{}{"op": op, "a": []int{3, 2803}, "b": []int{2803}, "dtype": "bool", "same": false, "concrete": true}})
+		}
+		p.Jobs = append(p.Jobs, Job{Harness: "opset13.H_C03", Case: map[string]interface{}{"op": "Add", "a": []int{3, 2803}, "b": []int{2803}, "dtype": "float32", "same": false, "concrete": true}})
+		p.Jobs = append(p.Jobs, Job{Harness: "opset13.H_C03", Case: map[string]interface{}{"op": "Less", "a": []int{8197}, "b": []int{1}, "dtype": "int32", "same": false, "concrete": true}})
 		// other accepted element types, and one tensor wired to both inputs
 		few := [][2][]int{{{2}, {2}}, {{2, 1}, {1, 2}}, {{}, {2}}, {{2}, {3}}}
 		for _, pr := range few {
